@@ -21,9 +21,9 @@ MANIFEST = {
             "expressions and calc_duration end-time expressions are re-read from the source on every run — returns the empty "
             "report iff the declarative predicate TimingValid (written from the property text) holds, and an entry "
             "(block, event, field, kind) is reported iff that clause is violated, exactly once (soundness, completeness, NoDup); "
-            "div_check accepts t iff t lies within 1e-6 raster of an integer multiple; ok implies the write-time assertion "
+            "div_check accepts t iff t lies within 1e-6 raster of an integer multiple; the RF clause in the property-text reading (delay + shape duration + ring-down fits) is equivalent for every block as get_block decodes it (decoded-RF invariant t[-1] <= shape_dur + eps proved from the model of rf_from_lib_data); ok implies the write-time assertion "
             "when the stored duration covers the content (sub-eps counterexample stated as _refuted, reproduced on the implementation as known finding C10/ok-but-write-raises; the theorems are parameterised by which duration the source tests against the block raster, so they also hold, unconditionally, for the repaired source). The extracted model is "
-            "run against Sequence.check_timing() on ~1300 (quick) random valid and single/multi-fault sequences over 5 "
+            "run against Sequence.check_timing() on ~1300 (quick) random valid and single/multi-fault sequences over 8 "
             "raster families; an independent exact-Fraction oracle must equal the reported multiset; ok sequences are "
             "written under warnings capture.",
     'note': 'Trusted: Coq kernel; translator patterns for check_timing.py/calc_duration.py/block.py; extraction '
@@ -37,13 +37,14 @@ BUDGET = {'quick': 75, 'thorough': 1500}
 ESCALATE_BUDGET = 150
 SEARCH_BUDGET = 120
 MISMATCH_BUDGET = 0.0
-RULE = ('sequences of 1-8 blocks on systems drawn from 5 raster families (Siemens 10/1/10/0.1 us, GE 4/2/4/2, 20 us gradients, '
-        '6.4 us, fine 0.5 us rf) with random RF dead/ring-down and ADC dead times; blocks mix block/sinc RF, trapezoids '
+RULE = ('sequences of 1-10 blocks on systems drawn from 8 raster families (Siemens 10/1/10/0.1 us, GE 4/2/4/2, 20 us gradients, '
+        '6.4 us, fine 0.5 us rf, and three with all four rasters pairwise different: block 10 / grad 5, block 10 / grad 20 / rf 0.5 / '
+        'adc 0.025, block 20 / grad 10) with random RF dead/ring-down and ADC dead times; blocks mix block/sinc RF, trapezoids '
         '(incl. flat 0), extended trapezoids (also with tt[0] > 0), arbitrary gradients, ADCs, triggers, labels and padding '
         'delays, all raster-aligned (stream valid: report must be empty, write() must not warn). Fault streams overwrite one or '
         '2-4 timing fields: +0.5 / +0.3 / +2e-4 / +1e-5 raster (must be reported), +1e-9 raster (must not), ADC delay on the '
         'ADC but not the RF raster, negative delays, delays below the dead time, events built for a system with shorter dead '
-        'times / ring-down, stored block duration cut, extended or moved off the block raster. Oracle: TimingValid/Violates '
+        'times / ring-down, stored block duration cut, extended or moved off the block raster, a field or the block duration moved by one step of ANOTHER raster of the system, repeated blocks (same events, other padding, valid or off raster), seconds-long delays (1e5-3e6 block rasters) with tiny offsets. Oracle: TimingValid/Violates '
         'recomputed with exact Fractions from the decoded blocks must equal the multiset of (block,event,field,kind) returned '
         'by seq.check_timing(); every injected fault must appear. Correspondence: the extracted Coq model must return the same '
         'ordered report and the same calc_duration per block. non-trivial = at least one error reported or >= 3 event kinds')
@@ -81,7 +82,8 @@ def inject(rng, case, opts, kinds=None):
     s = case['sys']
     nb = len(case['blocks'])
     kind = rng.choice(kinds or ['off', 'off', 'off', 'off', 'adc_on_adc_raster', 'neg', 'dead_rf', 'dead_adc', 'alt', 'stored_cut',
-                                'stored_long', 'stored_off', 'dur_off'])
+                                'stored_long', 'stored_off', 'dur_off', 'dur_off', 'other_raster', 'other_raster',
+                                'dur_other_raster', 'twin_off'])
     order = list(range(nb))
     rng.shuffle(order)
     for bi in order:
@@ -99,6 +101,39 @@ def inject(rng, case, opts, kinds=None):
                 ev['set'][attr] = float(F(old) + frac * F(ras))
                 exp = [(bi + 1, tg.slot_of(ev), field, 'RASTER')] if frac >= Fraction(1, 10 ** 5) else []
                 return ('off %s.%s by %s raster' % (tg.slot_of(ev), field, float(frac)), exp)
+        elif kind == 'other_raster':
+            # the field lies on ANOTHER raster of the system (not a multiple of its own): a raster mix-up must show
+            for ev in evs:
+                fs = [f for f in raster_fields(ev, s) if f[0] not in ev['set']]
+                rng.shuffle(fs)
+                for attr, field, ras in fs:
+                    others = [o for o in ('block', 'rf', 'grad', 'adc')
+                              if Fraction(1, 10 ** 4) < (F(s[o]) / F(ras)) % 1 < 1 - Fraction(1, 10 ** 4)]
+                    if not others:
+                        continue
+                    o = rng.choice(others)
+                    ev['set'][attr] = float(F(cur_value(ev, attr, opts)) + F(s[o]))
+                    return ('%s.%s moved by one %s raster' % (tg.slot_of(ev), field, o), [(bi + 1, tg.slot_of(ev), field, 'RASTER')])
+        elif kind == 'dur_other_raster':
+            dl = [e for e in blk['events'] if e['k'] == 'delay' and not e['set']]
+            others = [o for o in ('rf', 'grad', 'adc')
+                      if Fraction(1, 10 ** 4) < (F(s[o]) / F(s['block'])) % 1 < 1 - Fraction(1, 10 ** 4)]
+            if not dl or not others:
+                continue
+            o = rng.choice(others)
+            dl[0]['set']['delay'] = float(F(dl[0]['delay']) + 4 * F(s['block']) + F(s[o]))
+            return ('block duration on the %s raster, not the block raster' % o, [(bi + 1, 'block', 'duration', 'RASTER')])
+        elif kind == 'twin_off':
+            # a later block made of exactly the same events as an earlier one, padded to another (off-raster) duration
+            dl = [e for e in blk['events'] if e['k'] == 'delay']
+            if not dl or any(e['set'] or e['alt'] for e in blk['events']) or blk.get('stored_delta') or blk.get('stored_abs'):
+                continue
+            twin = copy.deepcopy(blk)
+            d = [e for e in twin['events'] if e['k'] == 'delay'][0]
+            frac = rng.choice(FRACS[:4])
+            d['set']['delay'] = float(F(d['delay']) + (frac + rng.choice([1, 7])) * F(s['block']))
+            case['blocks'].append(twin)
+            return ('twin of block %d with an off-raster duration' % (bi + 1), [(len(case['blocks']), 'block', 'duration', 'RASTER')])
         elif kind == 'adc_on_adc_raster':
             if F(s['adc']) * 2 > F(s['rf']):
                 return None
@@ -183,17 +218,35 @@ def inject(rng, case, opts, kinds=None):
 
 
 def variant():
-    """True when the source under test applies the block-raster test to the stored duration (repaired source)"""
+    """True when the source under test applies the block-raster test to the stored duration (repaired source).
+    Taken from the translator when it succeeded, else read directly from the source text (the oracle must not fall back
+    to the wrong reading when the translator fails closed on an unrelated edit)."""
     import translate
-    return bool(translate.CONSTS.get('timing_raster_on_stored', False))
+    if 'timing_raster_on_stored' in translate.CONSTS:
+        return bool(translate.CONSTS['timing_raster_on_stored'])
+    import re
+    try:
+        src = open(os.path.join(translate.PKG, 'check_timing.py')).read()
+    except OSError:
+        return True
+    m = re.search(r"div_check\(\s*([^,]+),[^)]*?event='block'", src, flags=re.S)
+    return bool(m) and 'block_durations' in m.group(1)
 
 
 def gen_case(rng, stream):
     s = tg.gen_system(rng)
     opts = tg.make_opts(s)
     nb = rng.randint(1, 8)
-    case = {'stream': stream, 'sys': s, 'alt': None, 'blocks': [tg.gen_block(rng, s, opts) for _ in range(nb)], 'faults': [],
-            'expected': []}
+    case = {'stream': stream, 'sys': s, 'alt': None,
+            'blocks': [tg.gen_block(rng, s, opts, p_long=0.07, p_empty=0.05) for _ in range(nb)], 'faults': [], 'expected': []}
+    # repeated blocks: same events, another (valid) padding — a later block must be judged on its own duration
+    for _ in range(rng.choice([0, 0, 1, 2])):
+        src = rng.choice(case['blocks'])
+        twin = copy.deepcopy(src)
+        dl = [e for e in twin['events'] if e['k'] == 'delay']
+        if dl:
+            dl[0]['delay'] = float(F(dl[0]['delay']) + rng.choice([0, 1, 5]) * F(s['block']))
+        case['blocks'].append(twin)
     nf = {'valid': 0, 'fault1': 1, 'faultN': rng.randint(2, 4), 'alt': 1}[stream]
     tries = 0
     while len(case['faults']) < nf and tries < 12:
@@ -335,6 +388,30 @@ def compare_model(ctx, items):
                     ctx.mismatch('write_assert', case, {'model_flags': flags, 'impl_exception': exc})
 
 
+def compare_rf_decode(ctx, items):
+    """model of rf_from_lib_data's time axis (decode_rf_tlast / decode_rf_shape_dur) against the decoded RF events"""
+    from common import Toks, qtok, ztok
+    lines, refs = [], []
+    for case, it in items:
+        for d in it['ds']:
+            r = d['rf']
+            if r is None or not r.get('time_shape'):
+                continue
+            kind, v = r['time_shape']
+            lines.append('timing.rfdecode %s %s' % (qtok(it['sys']['rf']), ('1 ' + ztok(v)) if kind == 'regular' else ('0 ' + qtok(v))))
+            refs.append((case, r))
+    if not lines:
+        return
+    for (case, r), o in zip(refs, ctx.model(lines)):
+        t = Toks(o)
+        tl, sd = t.q(), t.q()
+        ctx.count('corr.rf_decode.' + r['time_shape'][0])
+        if abs(tl - r['t_last']) > Fraction(1, 10 ** 12) or abs(sd - r['shape_dur']) > Fraction(1, 10 ** 12):
+            ctx.mismatch('rf_decode', case, {'model': [float(tl), float(sd)], 'impl': [float(r['t_last']), float(r['shape_dur'])]})
+        if r['t_last'] > r['shape_dur'] + tg.EPS:
+            ctx.fail('C10/decoded-rf-tlast-beyond-shape_dur', case, {'t_last': float(r['t_last']), 'shape_dur': float(r['shape_dur'])})
+
+
 def corpus():
     s = {'family': 'siemens', 'block': 1e-5, 'rf': 1e-6, 'grad': 1e-5, 'adc': 1e-7, 'rf_dead': 1e-4, 'rf_ring': 3e-5, 'adc_dead': 2e-5}
     z = dict(s, rf_dead=0.0, rf_ring=0.0, adc_dead=0.0)
@@ -400,9 +477,11 @@ def run(ctx):
             pending.append((case, it))
         if len(pending) >= 200:
             compare_model(ctx, pending)
+            compare_rf_decode(ctx, pending)
             pending = []
     if pending and ctx.model_available:
         compare_model(ctx, pending)
+        compare_rf_decode(ctx, pending)
 
 
 def replay(ctx, case):
